@@ -19,13 +19,15 @@ ASSUMPTIONS = [
 ]
 
 
-def gen_case(rng, depth):
-    ncols = rng.randint(2, 6)
-    types = [rng.choice(exprgen.ALL_TYPES) for _ in range(ncols)]
-    cols = [(n, t) for n, t in zip('abcdef', types)]
-    null_p = rng.choice([0.0, 0.15, 0.3, 0.5])
-    nrows = rng.choice([0, 1, 2, 3, 5, 8, 12])
-    rows = [tuple(values.gen_value(rng, PY[t], null_p) for _, t in cols) for _ in range(nrows)]
+def gen_case(rng, depth, cols=None, rows=None, allow_from=True):
+    if cols is None:
+        ncols = rng.randint(2, 6)
+        types = [rng.choice(exprgen.ALL_TYPES) for _ in range(ncols)]
+        cols = [(n, t) for n, t in zip('abcdef', types)]
+    if rows is None:
+        null_p = rng.choice([0.0, 0.15, 0.3, 0.5])
+        nrows = rng.choice([0, 1, 2, 3, 5, 8, 12])
+        rows = [tuple(values.gen_value(rng, PY[t], null_p) for _, t in cols) for _ in range(nrows)]
     g = exprgen.Gen(rng, cols, max_depth=depth)
     targets = [g.expr(rng.choice(exprgen.ALL_TYPES)) for _ in range(rng.randint(1, 3))]
     where = None
@@ -33,9 +35,9 @@ def gen_case(rng, depth):
     if mode < 0.65:
         where = g.expr(rng.choice([T_BOOL, T_BOOL, T_BOOL, T_INT, T_STR, T_DEC]))
     frm = None
-    if rng.random() < 0.2:
+    if allow_from and rng.random() < 0.2:
         frm = g.expr(T_BOOL)
-    return {'cols': cols, 'rows': rows, 'targets': [(t.text, t.coq) for t in targets],
+    return {'cols': cols, 'rows': rows, 'targets': [(t.text, t.coq) for t in targets], 'types': [t.type for t in targets],
             'where': (where.text, where.coq) if where else None, 'from': (frm.text, frm.coq) if frm else None,
             'ops': sorted(set(sum([list(t.ops) for t in targets] + [list(where.ops) if where else []]
                                   + [list(frm.ops) if frm else []], []))),
@@ -43,11 +45,12 @@ def gen_case(rng, depth):
 
 
 def statement(c):
-    s = 'SELECT ' + ', '.join(t for t, _ in c['targets'])
+    al = c.get('aliases')
+    s = 'SELECT ' + ', '.join(t + (f' AS {al[i]}' if al else '') for i, (t, _) in enumerate(c['targets']))
     if c['from']:
         s += ' FROM ' + c['from'][0]
     else:
-        s += ' FROM #t'
+        s += ' FROM ' + c.get('from_sql', '#t')
     if c['where']:
         s += ' WHERE ' + c['where'][0]
     return s
@@ -73,11 +76,26 @@ def model_expr(c):
         w = f'(Some {c["where"][1]})'
     else:
         w = 'None'
+    return f'exec_out {query_coq(c, w)} {values.rows_to_coq(c["rows"])}'
+
+
+def where_coq(c):
+    if c['from'] and c['where']:
+        return f'(Some (EAnd [{c["from"][1]}; {c["where"][1]}]))'
+    if c['from']:
+        return f'(Some {c["from"][1]})'
+    if c['where']:
+        return f'(Some {c["where"][1]})'
+    return 'None'
+
+
+def query_coq(c, w=None):
+    w = where_coq(c) if w is None else w
     n = len(c['targets'])
     q = ('{| q_where := ' + w + '; q_targets := ' + clist([t for _, t in c['targets']])
          + '; q_group := None; q_aggs := []; q_having := None; q_order := None; q_vis := '
          + clist([f'{i}%nat' for i in range(n)]) + '; q_distinct := false; q_limit := None |}')
-    return f'exec_out {q} {values.rows_to_coq(c["rows"])}'
+    return q
 
 
 IMPORTS = ['Base.PyValue', 'Base.Decimal', 'Model.Eval', 'Model.Order', 'Model.Exec']
